@@ -499,6 +499,9 @@ class Executor:
 
     def const_body_value(self, b):
         """constant bodies of the form `_0 = const N_ty;` (possibly through one temp)"""
+        if getattr(b, "simple", None) is not None:
+            v = self.eval_const(b.simple, None)
+            return v if isinstance(v, (I, z3.BoolRef)) else None
         try:
             blk = b.blocks.get("bb0")
             vals = {}
